@@ -118,3 +118,9 @@ Theorem C16_repair_not_for_settled : forall c acts ce st1 e,
   existsb WorldNoCreate.is_sug_status (plan_exp_reconcile (run c acts) ce st1) = false.
 Proof. exact WorldNoCreate.repair_branch_not_for_settled. Qed.
 Print Assumptions C16_repair_not_for_settled.
+
+Theorem C16_monitor_longrunning_sound : forall w acts,
+  Inv w -> WorldSucc.SuccInv w -> c_resume (w_cfg w) = LongRunning -> no_teardown acts ->
+  WorldMon.all_states (fun p => negb (WorldMon.sug_succeeded p)) (WorldC.project w) (MonSound.msteps w acts) = true.
+Proof. exact MonSound.longrunning_never_succeeded_model. Qed.
+Print Assumptions C16_monitor_longrunning_sound.
